@@ -28,8 +28,12 @@ def build(sc):
             name='a%d' % k, x=col('x', off=o), y=col('y', off=o),
             z=col('z', off=o), h=col('h'), u=col('u', 1.0), v=col('v', 1.0),
             w=col('w', 1.0), q=col('q', 1.0))
-        pa.add_property('ident', type='long',
-                        data=np.array([p['id'] for p in ps]))
+        ids = np.array([p['id'] for p in ps])
+        pa.add_property('ident', type='long', data=ids)
+        # typed and strided properties present from the start
+        pa.add_property('ei', type='int', data=5 * ids + 2)
+        pa.add_property('es', type='float', stride=2, data=np.repeat(
+            ids.astype(float), 2) + np.tile([.25, .5], len(ids)))
         pas.append(pa)
     c = sc['cfg']
     lo = [o + u * v for v in c['lo']]
@@ -49,12 +53,31 @@ def build(sc):
     return pas, nn
 
 
+def derived(i):
+    """Values of the typed / strided extra properties of particle i."""
+    return dict(ei=5 * i + 2, es0=4 * i + 1, es1=4 * i + 2, li=3 * i + 1,
+                lu=2 * i + 5, ls0=8 * i + 1, ls1=8 * i + 3)
+
+
+def add_late(pas):
+    """Properties added after the first update (the domain manager's cached
+    ghost arrays have to follow): int, unsigned int and strided double."""
+    for pa in pas:
+        ids = np.array(pa.get('ident', only_real_particles=False))
+        pa.add_property('li', type='int', data=3 * ids + 1)
+        pa.add_property('lu', type='unsigned int', data=2 * ids + 5)
+        pa.add_property('ls', stride=2, data=np.repeat(
+            ids.astype(float), 2) + np.tile([.125, .375], len(ids)))
+
+
 def rows(pa, sc, only_real=False):
     u, o = sc['unit'], sc['origin']
     n = pa.num_real_particles if only_real else pa.get_number_of_particles()
     g = {f: pa.get(f, only_real_particles=False) for f in FIELDS}
     ident = pa.get('ident', only_real_particles=False)
     tag = pa.get('tag', only_real_particles=False)
+    ex = {f: pa.get(f, only_real_particles=False)
+          for f in ('ei', 'es', 'li', 'lu', 'ls') if f in pa.properties}
     out = []
     for r in range(n):
         d = dict(id=int(ident[r]), tag=int(tag[r]))
@@ -63,6 +86,17 @@ def rows(pa, sc, only_real=False):
         d['h'] = int(round(g['h'][r] / u))
         for f in ('u', 'v', 'w', 'q'):
             d[f] = int(round(g[f][r]))
+        d['ei'] = int(ex['ei'][r])
+        d['es0'] = int(round(4 * ex['es'][2 * r]))
+        d['es1'] = int(round(4 * ex['es'][2 * r + 1]))
+        if 'li' in ex:
+            d['li'] = int(ex['li'][r])
+            d['lu'] = int(ex['lu'][r])
+            d['ls0'] = int(round(8 * ex['ls'][2 * r]))
+            d['ls1'] = int(round(8 * ex['ls'][2 * r + 1]))
+        else:
+            dd = derived(d['id'])
+            d.update(li=dd['li'], lu=dd['lu'], ls0=dd['ls0'], ls1=dd['ls1'])
         out.append(d)
     return out
 
@@ -72,7 +106,8 @@ def run(sc):
     u, o = sc['unit'], sc['origin']
     rounds = []
     # round 1: the constructor performed the first update
-    befores = [[dict(p, tag=0) for p in a['particles']] for a in sc['arrays']]
+    befores = [[dict(p, tag=0, **derived(p['id'])) for p in a['particles']]
+               for a in sc['arrays']]
     for rnd in range(len(sc['moves']) + 1):
         if rnd > 0:
             befores = []
@@ -90,6 +125,8 @@ def run(sc):
                 befores.append(rows(pa, sc, only_real=True))
             nn.update_domain()
         after = [rows(pa, sc) for pa in pas]
+        if rnd == 0:
+            add_late(pas)
         nn.update_domain()
         again = [rows(pa, sc) for pa in pas]
         rounds.append([dict(before=befores[k], after=after[k], again=again[k])
